@@ -128,8 +128,14 @@ fn observed_edges(g: &WaitForGraph, txs: &[u64]) -> (BTreeSet<(u64, u64)>, BTree
 
 /// mirror of edges / reverse_edges, and detect_cycles() <=> the recorded edges contain a cycle
 fn check_graph_obs(g: &WaitForGraph, txs: &[u64]) -> Result<BTreeSet<(u64, u64)>, (String, String)> {
+    check_graph_obs_except(g, txs, &[])
+}
+/// `exempt`: transactions whose edges are not compared between the two indexes (a prepare that
+/// overlaps the finish of its own transaction is outside the statement)
+fn check_graph_obs_except(g: &WaitForGraph, txs: &[u64], exempt: &[u64]) -> Result<BTreeSet<(u64, u64)>, (String, String)> {
     let (fwd, rev) = observed_edges(g, txs);
-    if fwd != rev {
+    let strip = |s: &BTreeSet<(u64, u64)>| -> BTreeSet<(u64, u64)> { s.iter().filter(|(a, b)| !exempt.contains(a) && !exempt.contains(b)).copied().collect() };
+    if strip(&fwd) != strip(&rev) {
         return Err(("c12:graph:edges-and-reverse-edges-differ".into(), format!("waiting_for says {fwd:?}, waiting_on says {rev:?}")));
     }
     let idx = |t: u64| txs.iter().position(|x| *x == t);
@@ -164,7 +170,6 @@ struct DOut {
     cases: u64,
     cyclic: u64,
     acyclic: u64,
-    cycles_reported: u64,
     evals: u64,
     add_waits: u64,
     distinct_victims: BTreeSet<(u8, u64)>,
@@ -176,7 +181,6 @@ impl DOut {
         self.cases += o.cases;
         self.cyclic += o.cyclic;
         self.acyclic += o.acyclic;
-        self.cycles_reported += o.cycles_reported;
         self.evals += o.evals;
         self.add_waits += o.add_waits;
         self.distinct_victims.extend(o.distinct_victims);
@@ -231,7 +235,6 @@ fn check_detector_case(n: usize, edges: &[(usize, usize)], out: &mut DOut) {
     }
     let cycles = g.detect_cycles();
     out.evals += 1;
-    out.cycles_reported += cycles.len() as u64;
     if cycles.is_empty() == cyclic {
         out.bad(if cyclic { "c12:detector:detect_cycles-misses-cycle" } else { "c12:detector:detect_cycles-reports-cycle-in-acyclic-graph" }, format!("reference cyclic={cyclic}, detect_cycles() = {cycles:?}"), n, edges);
     }
@@ -1114,6 +1117,8 @@ struct Program {
     /// co: clock advance after `pre`
     pre_advance: i64,
     threads: Vec<Vec<TOp>>,
+    /// preemption bound of this program = min(tier bound, max_bound)
+    max_bound: usize,
 }
 
 // ---------------------------------------------------------------- LockManager level
@@ -1394,29 +1399,36 @@ fn check_co(c: &CoCtx, evs: &[Ev]) -> (String, Option<String>) {
             }
         }
     }
-    // exclusivity: g2 granted strictly after g1 on a common key, although nothing that could have
-    // released g1 had even started
-    for g1 in &grants {
-        for g2 in &grants {
-            if g1.0 == g2.0 || g1.5 >= g2.4 {
+    // exclusivity: two transactions were granted a common key. One of the two holds must have ended
+    // before the other grant happened, i.e. an operation able to release it (finish of that
+    // transaction, a timeout / orphan sweep, its own refused prepare) must have started before the
+    // other grant returned and ended after the own grant began. (No expiry: runs stay below 30 s.)
+    let released_before = |g1: &(u8, u8, u64, Vec<String>, i64, i64), g2: &(u8, u8, u64, Vec<String>, i64, i64)| {
+        evs.iter().any(|e| e.call < g2.5 && e.ret > g1.4 && match (&e.op, &e.res) {
+            (TOp::Finish { tx } | TOp::Abort { tx }, _) => *tx == g1.0,
+            (TOp::Timeouts | TOp::Orphans, _) => true,
+            (TOp::HandlePrepare { tx, .. }, TRes::Voted(VoteKind::Conflict(_))) => *tx == g1.0,
+            _ => false,
+        })
+    };
+    for (i, g1) in grants.iter().enumerate() {
+        for g2 in &grants[i + 1..] {
+            if g1.0 == g2.0 {
                 continue;
             }
             // selftest corruption: every two key sets are taken to collide
             if !selftest() && !g1.3.iter().any(|k| g2.3.contains(k)) {
                 continue;
             }
-            let releaser = evs.iter().any(|e| e.call < g2.5 && e.ret > g1.5 && match (&e.op, &e.res) {
-                (TOp::Finish { tx } | TOp::Abort { tx }, _) => *tx == g1.0,
-                (TOp::Timeouts | TOp::Orphans, _) => true,
-                (TOp::HandlePrepare { tx, .. }, TRes::Voted(VoteKind::Conflict(_))) => *tx == g1.0,
-                _ => false,
-            });
-            if !releaser {
-                return (outcome, Some(format!("c12:coord:granted-while-held|{} was granted {:?} while {} still held {:?}; history {:?}", lab(g2.0 as usize), g2.3, lab(g1.0 as usize), g1.3, show())));
+            if !released_before(g1, g2) && !released_before(g2, g1) {
+                return (outcome, Some(format!("c12:coord:granted-while-held|{} was granted {:?} and {} was granted {:?} with no release in between; history {:?}", lab(g1.0 as usize), g1.3, lab(g2.0 as usize), g2.3, show())));
             }
         }
     }
-    if let Err((s, m)) = check_graph_obs(g, &c.ids) {
+    // transactions with a prepare that did not return before their finish began
+    let late: Vec<u64> = (0..n).filter(|t| finish_call[*t].is_some_and(|fc| evs.iter().any(|e| matches!(&e.op, TOp::HandlePrepare { tx, .. } if *tx as usize == *t) && e.ret >= fc))).map(|t| c.ids[t]).collect();
+    if let Err((s, m)) = check_graph_obs_except(g, &c.ids, &late) {
+        let m = c.ids.iter().enumerate().fold(m, |m, (i, id)| m.replace(&id.to_string(), &lab(i)));
         return (outcome, Some(format!("{}|{m}; history {:?}", s.replace("c12:", "c12:coord:"), show())));
     }
     for t in 0..n {
@@ -1482,8 +1494,8 @@ fn mk_exec(p: &Program) -> Exec {
 }
 
 fn programs(thorough: bool) -> Vec<Program> {
-    let lm = |name: &str, pre: Vec<TOp>, threads: Vec<Vec<TOp>>| Program { name: name.into(), level: "lm".into(), txs: vec![], pre, pre_advance: 0, threads };
-    let co = |name: &str, txs: Vec<Vec<usize>>, pre: Vec<TOp>, pre_advance: i64, threads: Vec<Vec<TOp>>| Program { name: name.into(), level: "co".into(), txs, pre, pre_advance, threads };
+    let lm = |name: &str, pre: Vec<TOp>, threads: Vec<Vec<TOp>>| Program { name: name.into(), level: "lm".into(), txs: vec![], pre, pre_advance: 0, threads, max_bound: 9 };
+    let co = |name: &str, txs: Vec<Vec<usize>>, pre: Vec<TOp>, pre_advance: i64, threads: Vec<Vec<TOp>>| Program { name: name.into(), level: "co".into(), txs, pre, pre_advance, threads, max_bound: 9 };
     let lock = |tx, ks| TOp::Lock { tx, ks };
     let lwt = |tx, ks| TOp::LockWT { tx, ks };
     let relh = |tx, idx| TOp::RelH { tx, idx };
@@ -1511,7 +1523,9 @@ fn programs(thorough: bool) -> Vec<Program> {
     if thorough {
         v.push(lm("lm: expiry takeover || owner refreshes", vec![lock(1, 0)], vec![vec![TOp::Advance(1200), lwt(2, 0)], vec![lwt(1, 0), TOp::Holder(0)]]));
         v.push(lm("lm: 3 threads, wait-for ring a,b,a", vec![], vec![vec![lwt(1, 0), lwt(1, 1)], vec![lwt(2, 1), lwt(2, 0)], vec![lwt(3, 2)]]));
-        v.push(co("co: 3 single-shard transactions on one key", vec![vec![0], vec![0], vec![0]], vec![], 0, vec![vec![hp(0, 0, 0), vote(0, 0), fin(0)], vec![hp(1, 0, 0), vote(1, 0), fin(1)], vec![hp(2, 0, 0), vote(2, 0), fin(2)]]));
+        let mut big = co("co: 3 single-shard transactions on one key", vec![vec![0], vec![0], vec![0]], vec![], 0, vec![vec![hp(0, 0, 0), vote(0, 0), fin(0)], vec![hp(1, 0, 0), vote(1, 0), fin(1)], vec![hp(2, 0, 0), vote(2, 0), fin(2)]]);
+        big.max_bound = 2; // 172 698 schedules at bound 3: too slow on a shared machine
+        v.push(big);
         v.push(co("co: two transactions || timeout sweep (3 threads)", vec![vec![0], vec![0]], vec![], TX_TIMEOUT_STEP_MS, vec![vec![hp(0, 0, 0), vote(0, 0)], vec![hp(1, 0, 0), vote(1, 0)], vec![TOp::Timeouts]]));
     }
     v
@@ -1550,6 +1564,7 @@ fn op_kinds(p: &Program) -> String {
     kinds.into_iter().collect::<Vec<_>>().join("+")
 }
 fn explore_program(p: &Program, bound: usize, st: &mut WStats) {
+    let bound = bound.min(p.max_bound);
     let stats = vsched::explore(&ExploreCfg { bound, part: (0, 1), max_execs: 4_000_000 }, || mk_exec(p));
     st.programs += 1;
     st.executions += stats.executions;
@@ -1562,7 +1577,7 @@ fn explore_program(p: &Program, bound: usize, st: &mut WStats) {
     if stats.outcomes.len() < 2 {
         st.single_outcome_programs.push(p.name.clone());
     }
-    st.per_program.push(json!({"program": p.name, "schedules": stats.executions, "distinct_outcomes": stats.outcomes.len(), "max_scheduling_points": stats.max_points, "violating_schedules": stats.violation_count, "deadlocked_schedules": stats.deadlocks}));
+    st.per_program.push(json!({"program": p.name, "preemption_bound": bound, "schedules": stats.executions, "distinct_outcomes": stats.outcomes.len(), "max_scheduling_points": stats.max_points, "violating_schedules": stats.violation_count, "deadlocked_schedules": stats.deadlocks}));
     if let Some(m) = stats.machinery {
         st.machinery.get_or_insert(format!("{}: {m}", p.name));
     }
@@ -1697,7 +1712,7 @@ fn main() {
     for (s, m, j) in &d.viol {
         rep.violation(s.clone(), m.clone(), j.clone());
     }
-    rep.part("D", json!({"graphs_x_orders_up_to_5_txs": small_cases, "max_edges_on_5_txs": max_edges_5, "graphs_x_orders_6_to_8_txs_not_exhaustive": d.cases - small_cases, "cyclic": d.cyclic, "acyclic": d.acyclic, "cycles_reported_by_detect_cycles": d.cycles_reported, "oracle_comparisons": d.evals, "add_wait_calls": d.add_waits, "distinct_(policy,victim)_pairs": d.distinct_victims.len(), "violating_comparisons": d.viol_total}));
+    rep.part("D", json!({"graphs_x_orders_up_to_5_txs": small_cases, "max_edges_on_5_txs": max_edges_5, "graphs_x_orders_6_to_8_txs_not_exhaustive": d.cases - small_cases, "cyclic": d.cyclic, "acyclic": d.acyclic, "oracle_comparisons": d.evals, "add_wait_calls": d.add_waits, "distinct_(policy,victim)_pairs": d.distinct_victims.len(), "violating_comparisons": d.viol_total}));
     rep.sample(json!({"part": "D", "n": 3, "edges_in_insertion_order": [[0, 1], [1, 2], [2, 0]], "note": "3-ring: detect_cycles = one cycle of length 3, victim inside for all policies"}));
     if d.cyclic == 0 || d.acyclic == 0 || d.distinct_victims.len() < 8 {
         rep.machinery("vacuous: detector part saw no cyclic / no acyclic graphs or too few victims");
@@ -1729,6 +1744,7 @@ fn main() {
     let progs = programs(thorough);
     let results: Vec<WStats> = par::spawn_workers(par::worker_count().min(progs.len()), &[]);
     let mut t = WStats::default();
+    let mut t_sigs: Vec<(String, String)> = vec![];
     for w in results {
         t.programs += w.programs;
         t.executions += w.executions;
@@ -1742,6 +1758,7 @@ fn main() {
         t.per_program.extend(w.per_program);
         t.violation_total += w.violation_total;
         for v in w.violations {
+            t_sigs.push((v.signature.clone(), v.replay["program"]["level"].as_str().unwrap_or("").to_string()));
             rep.violation(v.signature, v.message, v.replay);
         }
         if t.sample.is_none() {
@@ -1762,20 +1779,25 @@ fn main() {
     if let Some(x) = t.sample {
         rep.sample(x);
     }
+    rep.set("violating_cases_by_part", json!({"D": d.viol_total, "S": s.viol_total, "K": k.viol_total, "T": t.violation_total}));
     if !t.single_outcome_programs.is_empty() {
         rep.machinery(format!("vacuous: programs with a single outcome (nothing collided): {:?}", t.single_outcome_programs));
     }
     if selftest() {
         // the corrupted references must alarm in every part; no evidence is written
-        let sigs: Vec<String> = rep.violations.iter().map(|v| v.signature.clone()).collect();
-        let need = [("D", "c12:detector:"), ("S", "c12:table:"), ("K", "c12:coord:granted-while-held"), ("T-lm", "c12:conc:lock-table-history-not-linearizable"), ("T-co", "c12:coord:granted-while-held")];
+        let hits = [
+            ("D", "c12:detector:", d.viol.iter().filter(|v| v.0.starts_with("c12:detector:")).count()),
+            ("S", "c12:table:", s.violations.iter().filter(|v| v.0.starts_with("c12:table:")).count()),
+            ("K", "c12:coord:granted-while-held", k.violations.iter().filter(|v| v.0.starts_with("c12:coord:granted-while-held")).count()),
+            ("T-lm", "c12:conc:lock-table-history-not-linearizable", t_sigs.iter().filter(|v| v.1 == "lm" && v.0.starts_with("c12:conc:lock-table-history-not-linearizable")).count()),
+            ("T-co", "c12:coord:granted-while-held", t_sigs.iter().filter(|v| v.1 == "co" && v.0.starts_with("c12:coord:granted-while-held")).count()),
+        ];
         let mut ok = true;
-        for (part, prefix) in need {
-            let hit = sigs.iter().filter(|s| s.starts_with(prefix)).count();
-            println!("SELFTEST part {part}: {} ({hit} kept artefacts with signature {prefix}*)", if hit > 0 { "alarms" } else { "SILENT" });
+        for (part, prefix, hit) in hits {
+            println!("SELFTEST part {part}: {} ({hit} artefacts with signature {prefix}*)", if hit > 0 { "alarms" } else { "SILENT" });
             ok &= hit > 0;
         }
-        println!("SELFTEST total violating cases with corrupted references: {}", rep.violation_count());
+        println!("SELFTEST total violating cases with corrupted references: {}", d.viol_total + s.viol_total + k.viol_total + t.violation_total);
         std::process::exit(if ok { 0 } else { 2 });
     }
     rep.finish();
